@@ -224,6 +224,7 @@ func (ord *Order) Calculate() error {
 	} else {
 		ord.NormalizeRegime()
 	}
+	applyCustomerRates(ord)
 	ord.Normalize(ord.normalizers())
 	return calculate(ord)
 }
